@@ -4,7 +4,7 @@
 From Coq Require Import ZArith List Bool Permutation.
 From Model Require Import PyBase Graph Reactor ReactorStage ReactorQueue Stereo.
 From Gen Require Import ReactorShape.
-From Proofs Require Import ReactorShapeProofs ReactorProofs ReactorExt ReactorEquiv ReactorCompose StereoProofs ReactorStereo ReactorStereo2 ReactorQueueProofs ReactorQueueComplete ReactorStageEquiv.
+From Proofs Require Import ReactorShapeProofs ReactorProofs ReactorExt ReactorEquiv ReactorCompose StereoProofs ReactorStereo ReactorStereo2 ReactorQueueProofs ReactorQueueComplete ReactorStageEquiv ReactorStates.
 Import ListNotations.
 Open Scope Z_scope.
 
@@ -686,3 +686,11 @@ Print Assumptions C16_reactor_shape_unchanged.
 Theorem C16_reactor_conditions_unchanged : condition_table = expected_condition_table.
 Proof. exact reactor_conditions_unchanged. Qed.
 Print Assumptions C16_reactor_conditions_unchanged.
+
+(* the function whose intermediate states the correspondence compares with the frame of the real _patcher call is the same
+   computation as the `patcher` all theorems above are about *)
+Theorem C16_patcher_states_final : forall g mapping tpl del,
+  patcher g mapping tpl del =
+  match patcher_states g mapping tpl del with Ok (_, _, _, r) => Ok r | Err e => Err e end.
+Proof. exact patcher_states_final. Qed.
+Print Assumptions C16_patcher_states_final.
